@@ -19,4 +19,7 @@ for (_fs, _ch, _fr, _mb, _tier) in ((16000, 1, 1, 10, 'quick'), (48000, 2, 8, 10
                  'copies between float sample buffers are not modelled (their content is unconstrained and unread); SILK smoothed cut-off field assumed in [0, 2^24)'],
         bounds='Fs = %d, %d channel(s), frame of %g ms, output budget of exactly %d bytes, no surround energy mask; any encoder state satisfying the invariant, any mode the frame size allows' % (_fs, _ch, _fr * 2.5, _mb),
         what='real opus_encode_frame_native: no user setting written, result range and exact CBR size, TOC announces duration/channels/mode, DTX counter advanced by exactly the frame duration'))
+GROUPS.append(dict(name='get_in_dtx', cls='P', tu='C20_frame_coder.c', entry='h_get_in_dtx', dfcc=False, canary='real', expect_canaries=2, cex=False, unwind=2, timeout=600, mem_gb=12,
+    defines=['-DVERIF_FS=48000', '-U__SSE__', '-DVERIF_CH=2', '-DVERIF_FRAME=8', '-DVERIF_MAXBYTES=10'], cbmc_flags=['--object-bits', '10', '--no-array-field-sensitivity'],
+    functions=['opus_encoder_ctl'], what='OPUS_GET_IN_DTX consults the detector that produces the DTX packets (loop-free, symbolic encoder and SILK state)'))
 META = {'cex': {'tu': 'C20_dtx.c', 'entry': 'h_dtx_step', 'unwind': 2, 'timeout': 300}}
